@@ -283,7 +283,10 @@ func runC33(c c33Case, r *ev.Rec) error {
 			return ev.Failf("query %q succeeded although the engine recovered from a runtime panic:\n%s", c.Expr, c33TrimStack(stack))
 		}
 		ex := c27Extract(res)
-		if ex.Dup != "" {
+		if ex.Dup != "" && c.Eng.Delayed && ex.DupMixed {
+			// listed under C27 (c27-delayed-name-removal-float-and-histogram-at-one-timestamp); not an internal failure
+			r.Class("res:c27-delayed-mixed-merge")
+		} else if ex.Dup != "" {
 			return ev.Failf("query %q: the result holds the same label set twice: %s", c.Expr, ex.Dup)
 		}
 		if c.Range {
